@@ -1102,12 +1102,27 @@ func TestCheck(t *testing.T) {
 				if answeredFail[other] {
 					r.Count("target_partial_failures", 1)
 				}
+				// What the resolver was given for one family while the other family's lookup failed is either all there
+				// or not there at all. The statement does not say which ("together with their targets' addresses" is
+				// silent about a target whose lookup half fails): an implementation that asks for both families at
+				// once and gives the target up when either fails satisfies it as well as one that keeps the half it
+				// got. (This rule used to demand the half; two independent property-preserving changes - equiv/q4-e1
+				// and r4-e1 - showed that demand to be the monitor's, not the statement's.) A half-kept family, i.e.
+				// some but not all of its addresses, is still a defect.
+				kept := 0
 				for _, a := range given {
-					if !strings.Contains(hs, ","+a.String()+",") {
-						viol("Q4:target-addresses-dropped-after-partial-failure", "the type %d query for %s, target of the returned record {%s}, was answered NOERROR with [%s] but Additional[%s] = [%s] (A rcode %d, AAAA rcode %d)",
-							typ, h.Target, h, ipKey(given), h.Target, have, rcA, rcAAAA)
-						break
+					if strings.Contains(hs, ","+a.String()+",") {
+						kept++
 					}
+				}
+				switch {
+				case kept == len(given):
+					r.Count("target_partial_failures_half_kept", 1)
+				case kept == 0:
+					r.Count("target_partial_failures_target_given_up", 1)
+				default:
+					viol("Q4:target-addresses-partly-dropped-after-partial-failure", "the type %d query for %s, target of the returned record {%s}, was answered NOERROR with [%s] but Additional[%s] = [%s] holds only %d of them (A rcode %d, AAAA rcode %d)",
+						typ, h.Target, h, ipKey(given), h.Target, have, kept, rcA, rcAAAA)
 				}
 			}
 		}
